@@ -41,6 +41,9 @@ PRIVATE_POINTS = {
     pnorm.Normalizer.visit_leaf.__code__: 'tok',
     perrors.ErrorFinder.add_issue.__code__: 'tok',
 }
+# line granularity inside the two memoisation functions: every line of them is a yield point (a preemption between a
+# failed lookup and the store, or in the middle of any loop over the shared table, is a first-use race)
+LINE_POINTS = {pgrammar.load_grammar.__code__, ptok._get_token_collection.__code__}
 RETURN_POINTS = {   # the moment just before the shared write that follows the function's return
     pgrammar.Grammar.__init__.__code__: 'lg_setdefault',
     ptok._create_token_collection.__code__: 'tc_store',
@@ -60,10 +63,17 @@ def reset_memo():
 class Run:
     """programs: {tid: callable}; schedule: list of thread ids (one per abstract step)"""
 
-    def __init__(self, programs, schedule, block=25, offset=0):
+    def __init__(self, programs, schedule, block=25, offset=0, line_mode=False):
+        """line_mode: only the memoisation functions yield, at every call AND every line of them (first-use races at
+        line granularity); the private steps never preempt"""
+        self.line_mode = line_mode
+        self.memo_points = {t: 0 for t in programs}
         self.programs = programs
         self.segments = []
         for t in schedule:
+            if isinstance(t, (tuple, list)):          # (thread, number of steps)
+                self.segments.append([t[0], t[1]])
+                continue
             if self.segments and self.segments[-1][0] == t:
                 self.segments[-1][1] += 1
             else:
@@ -121,9 +131,17 @@ class Run:
         if env != self.base_env:
             self.env_changes.update(k for k in env if env[k] != self.base_env[k])
         if label == 'tok':
+            if self.line_mode:
+                return
             self.priv[tid] += 1
             if (self.priv[tid] + self.offset) % self.block:
                 return
+        elif label == 'memo_line':
+            if not self.line_mode:
+                return
+            self.memo_points[tid] += 1
+        else:
+            self.memo_points[tid] += 1
         self.abstract_step(tid)
 
     # -- threads ------------------------------------------------------------------------------------
@@ -133,6 +151,8 @@ class Run:
                 lab = RETURN_POINTS.get(frame.f_code)
                 if lab:
                     self.point(tid, lab)
+            elif event == 'line' and frame.f_code in LINE_POINTS:
+                self.point(tid, 'memo_line')
             return local
 
         def glob(frame, event, arg):
@@ -142,7 +162,7 @@ class Run:
             lab = MEMO_POINTS.get(code) or PRIVATE_POINTS.get(code)
             if lab:
                 self.point(tid, lab)
-                if code in RETURN_POINTS:
+                if code in RETURN_POINTS or code in LINE_POINTS:
                     return local
             return None
         return glob
